@@ -17,7 +17,7 @@ for d in sorted(glob.glob(os.path.join(V, "seeded", "*"))):
         for l in r.get("lines", []):
             mm = re.match(r"\s+not discharged: (\S+) \|", l)
             if mm:
-                labs = re.findall(r"'(C\d\d\.[\w.]+)", l)
+                labs = re.findall(r"'((?:C\d\d\+)*C\d\d\.[\w.]+)", l)
                 failed.append(mm.group(1).replace("kani::", "") + (" [" + ", ".join(labs[:2]) + "]" if labs else ""))
         verdict = {0: "MISSED (exit 0)", 1: "caught (VIOLATION)", 2: "undecided (exit 2)"}.get(r.get("exit"), "exit %s" % r.get("exit"))
         cells.append("`./check %s`: %s%s" % (prop, verdict, (" -- " + "; ".join(failed[:3])) if failed else ""))
